@@ -66,11 +66,13 @@ struct Config {
     prefill: bool,
     /// log the names passed to getenv (through the shim)
     env_log: bool,
+    /// which of the two dumps are requested next to the script (bit 0: --dfa, bit 1: --regex)
+    dumps: u8,
 }
 
 fn configs(tier: Tier) -> Vec<Config> {
     let mut v = vec![];
-    let base = |name: &str| Config { name: name.to_string(), seed: None, no_aslr: false, env: vec![], clear_env: false, other_cwd: false, stdin: false, prefill: false, env_log: false };
+    let base = |name: &str| Config { name: name.to_string(), seed: None, no_aslr: false, env: vec![], clear_env: false, other_cwd: false, stdin: false, prefill: false, env_log: false, dumps: 3 };
     for s in 0..tier.pick(4u64, 32u64) {
         v.push(Config { seed: Some(s), ..base(&format!("hash seed {s}")) });
     }
@@ -86,6 +88,9 @@ fn configs(tier: Tier) -> Vec<Config> {
     });
     v.push(Config { other_cwd: true, ..base("other working directory") });
     v.push(Config { prefill: true, seed: Some(0), ..base("destination files exist with longer content, hash seed 0") });
+    v.push(Config { dumps: 0, seed: Some(0), ..base("script only (no --dfa, no --regex), hash seed 0") });
+    v.push(Config { dumps: 1, seed: Some(0), ..base("script and --dfa only, hash seed 0") });
+    v.push(Config { dumps: 2, seed: Some(0), ..base("script and --regex only, hash seed 0") });
     v.push(Config { stdin: true, seed: Some(1), ..base("grammar on stdin, hash seed 1") });
     v
 }
@@ -117,7 +122,13 @@ fn run_config(text: &str, shell: &str, cfg: &Config, scratch: &Scratch, shim: &O
     let _ = std::fs::remove_file(&envlog);
     let seedlog = scratch.path("seed.log");
     let _ = std::fs::remove_file(&seedlog);
-    let mut args = vec![format!("--{shell}"), o.to_string_lossy().to_string(), "--dfa".into(), d.to_string_lossy().to_string(), "--regex".into(), r.to_string_lossy().to_string()];
+    let mut args = vec![format!("--{shell}"), o.to_string_lossy().to_string()];
+    if cfg.dumps & 1 != 0 {
+        args.extend(["--dfa".to_string(), d.to_string_lossy().to_string()]);
+    }
+    if cfg.dumps & 2 != 0 {
+        args.extend(["--regex".to_string(), r.to_string_lossy().to_string()]);
+    }
     args.push(if cfg.stdin { "-".into() } else { inpath.to_string_lossy().to_string() });
     let mut inv = Invocation::new(args);
     let stdin_bytes = text.as_bytes().to_vec();
@@ -248,15 +259,15 @@ pub fn run(tier: Tier) -> Report {
                 if out.script != reference.script {
                     diffs.push("script");
                 }
-                if out.dfa != reference.dfa {
+                if cfg.dumps & 1 != 0 && out.dfa != reference.dfa {
                     diffs.push("--dfa file");
                 }
-                if out.regex != reference.regex {
+                if cfg.dumps & 2 != 0 && out.regex != reference.regex {
                     diffs.push("--regex file");
                 }
                 if !diffs.is_empty() {
                     rep.violation(
-                        &format!("output-depends-on-{}", if cfg.prefill { "destination-history" } else if cfg.seed.is_some() && !cfg.no_aslr && !cfg.stdin { "hash-seed" } else { "environment" }),
+                        &format!("output-depends-on-{}", if cfg.dumps != 3 { "other-options" } else if cfg.prefill { "destination-history" } else if cfg.seed.is_some() && !cfg.no_aslr && !cfg.stdin { "hash-seed" } else { "environment" }),
                         format!("{name} --{sn}: {} differ(s) between [{}] (exit {:?}) and [{}] (exit {:?})", diffs.join(", "), cfgs[0].name, reference.status, cfg.name, out.status),
                         J::obj(vec![("grammar", J::s(text)), ("shell", J::s(*sn)), ("reference_config", J::s(&cfgs[0].name)), ("config", J::s(&cfg.name)), ("differs", J::s(diffs.join(", "))), ("reproduce", J::s(format!("CG_SEED=<n> LD_PRELOAD={} complgen --{sn} OUT --dfa D --regex R FILE  (twice, different n)", shim.as_ref().unwrap().display())))]),
                     );
@@ -271,7 +282,7 @@ pub fn run(tier: Tier) -> Report {
     let mut env_runs = 0u64;
     if shim.is_some() {
         let probe_texts: Vec<(String, String)> = vec![("hello".into(), "hello --color=(always | never | auto) <PATH> {{{ echo x }}};\n".into()), gs[0].clone()];
-        let logcfg = Config { name: "getenv log, hash seed 0".into(), seed: Some(0), no_aslr: false, env: vec![], clear_env: false, other_cwd: false, stdin: false, prefill: false, env_log: true };
+        let logcfg = Config { name: "getenv log, hash seed 0".into(), seed: Some(0), no_aslr: false, env: vec![], clear_env: false, other_cwd: false, stdin: false, prefill: false, env_log: true, dumps: 3 };
         for (name, text) in &probe_texts {
             for (_, sn) in SHELLS {
                 let reference = run_config(text, sn, &logcfg, &scratch, &shim);
@@ -285,7 +296,7 @@ pub fn run(tier: Tier) -> Report {
                         continue;
                     }
                     for val in ["1", "zz 9/\u{e9}"] {
-                        let cfg = Config { name: format!("{var}={val:?}, hash seed 0"), seed: Some(0), no_aslr: false, env: vec![(var.clone(), val.to_string())], clear_env: false, other_cwd: false, stdin: false, prefill: false, env_log: false };
+                        let cfg = Config { name: format!("{var}={val:?}, hash seed 0"), seed: Some(0), no_aslr: false, env: vec![(var.clone(), val.to_string())], clear_env: false, other_cwd: false, stdin: false, prefill: false, env_log: false, dumps: 3 };
                         let out = run_config(text, sn, &cfg, &scratch, &shim);
                         env_runs += 1;
                         evals += 1;
@@ -456,7 +467,7 @@ pub fn run(tier: Tier) -> Report {
     rep.cov("in_process_repetitions", J::i(reps as i64));
     rep.cov(
         "rule",
-        J::s("controlled-nondeterminism sweep (exhaustive over the configuration matrix, a sweep of the 2^128 seed space): grammars = two synthetic wide grammars (40 equal-length literals, 8 commands under ||, 7 within-word automata of equal and different shape; second one with every list reversed) + corpus + examples/*.usage; x 4 shells; outputs = script, --dfa file, --regex file; configurations = hash seeds 0..K-1 through an LD_PRELOAD getrandom shim (owning std's RandomState), a replay of seed 0, ASLR off with and without the shim, OS randomness, empty / large / odd environment, other cwd, grammar on stdin, destination files that exist already with longer content; every environment variable the binary passes to getenv (logged by the shim) set to two values, one variable at a time. All must equal the seed-0 run byte for byte. In-process histories: every single file, every order of three (thorough: four) grammars and a repetition history are compiled inside one fresh worker process each; every file's three output hashes must be the same in all histories, and equal to a fresh binary's bytes. Eq/Hash agreement: for twin-word, redundant-twin, nested-word families, all trees <= 4 (5) nodes, the corpus and the examples x 4 shells, every pair of regex inputs, pooled within-word regexes and rebuilt within-word automata that compare equal must hash equal under a fixed-key hasher (otherwise interning depends on the seed). In-process repetition on all trees <= 3 (4) nodes, and 600 (20000) repetitions of grammars with twin within-word expressions (each compile uses freshly keyed interning tables). distinct = distinct (grammar, shell, configuration)."),
+        J::s("controlled-nondeterminism sweep (exhaustive over the configuration matrix, a sweep of the 2^128 seed space): grammars = two synthetic wide grammars (40 equal-length literals, 8 commands under ||, 7 within-word automata of equal and different shape; second one with every list reversed) + corpus + examples/*.usage; x 4 shells; outputs = script, --dfa file, --regex file; configurations = hash seeds 0..K-1 through an LD_PRELOAD getrandom shim (owning std's RandomState), a replay of seed 0, ASLR off with and without the shim, OS randomness, empty / large / odd environment, other cwd, grammar on stdin, destination files that exist already with longer content, the script requested alone / with one of the two dumps; every environment variable the binary passes to getenv (logged by the shim) set to two values, one variable at a time. All must equal the seed-0 run byte for byte. In-process histories: every single file, every order of three (thorough: four) grammars and a repetition history are compiled inside one fresh worker process each; every file's three output hashes must be the same in all histories, and equal to a fresh binary's bytes. Eq/Hash agreement: for twin-word, redundant-twin, nested-word families, all trees <= 4 (5) nodes, the corpus and the examples x 4 shells, every pair of regex inputs, pooled within-word regexes and rebuilt within-word automata that compare equal must hash equal under a fixed-key hasher (otherwise interning depends on the seed). In-process repetition on all trees <= 3 (4) nodes, and 600 (20000) repetitions of grammars with twin within-word expressions (each compile uses freshly keyed interning tables). distinct = distinct (grammar, shell, configuration)."),
     );
     rep.cov("exhaustive", J::Bool(false));
     rep.cov("samples", J::Arr(samples.items));
